@@ -21,7 +21,7 @@ EXPLANATION = (
     "bracket managers; S8 the failure sentinel exists in the numerical library. NOT decided: the rung sizes of the "
     "geometric system; 'exactly the best ones' under ties.")
 
-FLOOR = {"S1": 2, "S2": 3, "S3": 2, "S4": 3, "S5": 1, "S6": 5, "S7": 2, "S8": 3, "S9": 2}
+FLOOR = {"S1": 4, "S2": 3, "S3": 2, "S4": 3, "S5": 1, "S6": 5, "S7": 2, "S8": 3, "S9": 2}
 
 
 def s1(ctx, rep):
@@ -44,6 +44,45 @@ def s1(ctx, rep):
     ok = bool(cr) and bool(last) and all(cfg.path(cfg.entry, n.id, deleted=cr) is None for n in last) and \
         cfg.path(cfg.entry, cfg.exit, deleted={n.id for n in rets}, skip_labels=("exc",)) is None
     rep.put(ok, "S1", "must_precede", "SynchronousHyperbandBracketManager.next_job: when no open bracket has a free slot a new bracket is created", f, None, "")
+
+
+def s1b(ctx, rep):
+    """the primary-bracket pointer moves only past brackets that are complete: every write of _primary_bracket_id in
+    on_result is dominated by `<b>.is_bracket_complete()` where b is the bracket the pointer currently designates"""
+    from .c01 import _dom_atoms
+    P = ctx.P
+    f = P.method("SynchronousHyperbandBracketManager", "on_result")
+    cfg = cfg_of(f)
+    wr = [n for n in cfg.nodes if n.kind == "stmt" and isinstance(n.ast, (ast.Assign, ast.AugAssign))
+          and any(U(t) == "self._primary_bracket_id" for t in (n.ast.targets if isinstance(n.ast, ast.Assign) else [n.ast.target]))]
+    if len(wr) < 2:
+        raise AnchorError("SynchronousHyperbandBracketManager.on_result: writes of _primary_bracket_id not found")
+
+    def tracks_primary(name):
+        """every definition of the local is self._brackets[<the reported bracket id | the primary pointer>]"""
+        ds = local_defs(f, name)
+        if not ds:
+            return False
+        for d in ds:
+            if isinstance(d, tuple) or not (isinstance(d, ast.Subscript) and U(d.value) == "self._brackets"):
+                return False
+            ix = d.slice
+            if U(ix) == "self._primary_bracket_id":
+                continue
+            # the reported bracket id: the first element unpacked from the `result` parameter
+            idd = local_defs(f, U(ix)) if isinstance(ix, ast.Name) else []
+            if not (len(idd) == 1 and isinstance(idd[0], tuple) and idd[0][0] == "unpack" and U(idd[0][1]) == f.params[1] and idd[0][2] == 0):
+                return False
+        return True
+    for n in wr:
+        at = _dom_atoms(cfg, n.id)
+        # loop bodies: the loop test dominates the body
+        recv = [a[1][:-len(".is_bracket_complete()")] for a in at if a[0] == "truth" and a[2] is True and a[1].endswith(".is_bracket_complete()")]
+        ok = any(r.isidentifier() and tracks_primary(r) for r in recv)
+        rep.put(ok, "S1", "guarded_by", "SynchronousHyperbandBracketManager.on_result: the primary pointer moves only past a complete bracket", f, n.ast,
+                f"guarded by {recv}", f"`{U(n.ast)}` is guarded by the completeness of {recv or 'nothing'}, which is not the bracket the primary pointer "
+                "designates: the pointer can jump past brackets that are still open - next_job stops serving them and their pending "
+                "results are rejected")
 
 
 def s2(ctx, rep):
@@ -292,6 +331,7 @@ def s9(ctx, rep):
 
 def run(ctx, rep, tier="quick"):
     s1(ctx, rep)
+    s1b(ctx, rep)
     s2(ctx, rep)
     s3(ctx, rep)
     s4_s5(ctx, rep)
